@@ -45,7 +45,8 @@ class SpecRT:
                      'mem', 'length', 'msg_names', 'exact_arith', 'instance_is', 'V_of_int', 'field_updated', 'field_unchanged',
                      'dhas', 'dval', 'distinct_refs', 'is_digit_string', 'int_accepts', 'norm_any', 'dict_is',
                      'old_dict', 'dict_same', 'any_mem', 'any_of', 'any_is_int', 'any_int_value', 'str_is_int_of',
-                     'any_is_none', 'any_eq', 'any_same', 'returned_class', 'is_the_election', 'dict_int_values_between', 'int_value_of', 'mem_opt', 'length_opt', 'slack0'}
+                     'any_is_none', 'any_eq', 'any_same', 'returned_class', 'is_the_election', 'dict_int_values_between', 'int_value_of', 'mem_opt', 'length_opt', 'slack0',
+                     'dref', 'dict_has_ref', 'dict_copy_of', 'any_is_str'}
 
     def init(self):
         self.ctx = None
@@ -197,6 +198,10 @@ class SpecRT:
             if isinstance(d, SAbs):
                 guard = d.mem(x)
                 st.envs[qfr.fid][var] = self.wrap(d.ek, x)
+            elif isinstance(d, SStr) and d.lit == 'any':
+                x = z3.Const(fresh_name(var), self.AnyT)
+                guard = z3.BoolVal(True)
+                st.envs[qfr.fid][var] = SAny(x)
             elif isinstance(d, SStr) and d.lit is not None and d.lit.startswith('ref:'):
                 # forall('ref:droop.candidate.Candidate', lambda c: ...) over allocated objects
                 guard = z3.And(x >= 1, x < st.alloc)
